@@ -304,9 +304,10 @@ def _stmt(p):
                     sets.append((str(c[1]).lower(), e))
                     if not p.accept("op", ","):
                         break
+                uw = None
                 if p.kw("WHERE"):
-                    p.expr()
-                upsert = {"target": target, "action": "update", "set": sets}
+                    uw = p.expr()
+                upsert = {"target": target, "action": "update", "set": sets, "where": uw}
                 conflict = "UPSERT"
             else:
                 raise SqlError("unsupported ON CONFLICT action")
